@@ -399,6 +399,7 @@ structure Sys where
   applied : List (Nat × Nat)     -- (shard, tx): the participant applied the tx's writes
   discarded : List (Nat × Nat)   -- (shard, tx): the participant discarded a prepared (yes-voted) tx
   reasons : List (Nat × AbortReason) -- reason of every queued abort broadcast (observability only)
+  appliedOps : List (Nat × Nat × List Op) -- (shard, tx, the operations applied), in application order
   deriving Repr
 
 inductive Ev
@@ -455,7 +456,10 @@ def Sys.deliverMsg (s : Sys) : Msg → Sys × Res
     | some p =>
       let r := p.commit tx
       ({ s with parts := s.parts.set sh r.1,
-                applied := if r.2 then s.applied ++ [(sh, tx)] else s.applied }, .flag r.2)
+                applied := if r.2 then s.applied ++ [(sh, tx)] else s.applied,
+                appliedOps := match findPrepared p.prepared tx with
+                  | some pt => s.appliedOps ++ [(sh, tx, pt.ops)]
+                  | none => s.appliedOps }, .flag r.2)
   | .abort tx sh =>
     match s.parts[sh]? with
     | none => (s, .noshard)
@@ -527,7 +531,7 @@ def Sys.init (stores : List Store) (txTimeout maxConcurrent lockTimeout : Nat) :
     coord := ⟨[], [], maxConcurrent, txTimeout, 0⟩,
     parts := stores.map (fun st => ⟨[], ⟨[], [], lockTimeout⟩, st⟩),
     msgs := [], specs := [], nextHandle := 0, decided := [], applied := [], discarded := [],
-    reasons := [] }
+    reasons := [], appliedOps := [] }
 
 /-- states reachable through events of C03's alphabet -/
 inductive Reach (s0 : Sys) : Sys → Prop
@@ -538,6 +542,11 @@ inductive Reach (s0 : Sys) : Sys → Prop
 inductive ReachExt (s0 : Sys) : Sys → Prop
   | refl : ReachExt s0 s0
   | step {s : Sys} (e : Ev) : ReachExt s0 s → ReachExt s0 (s.step e)
+
+/-- the data a shard would hold if exactly the logged commit applications had been executed, in
+    order, on `st` -/
+def replay (st : Store) (sh : Nat) (log : List (Nat × Nat × List Op)) : Store :=
+  log.foldl (fun acc e => if e.1 = sh then applyOps acc e.2.2 else acc) st
 
 def Sys.storeOf (s : Sys) (sh : Nat) : Store :=
   match s.parts[sh]? with
